@@ -40,6 +40,13 @@ def configs(tier, seed):
         cfgs.append(dict(move="pg", n=2, D=1, G=5, proposal=prop, wiring=wiring, outlier_prior=op, threshold=thr, N=3,
                          alpha=alphas[k % 3], data_seed=seed * 1000 + 77))
         k += 1
+    # a single particle (the command line accepts --num-particles 1): the pass holds only the retained path
+    for prop, wiring, op, n in itertools.product(PROPOSALS, ["library", "run"], [0.0, 0.2], [2, 3]):
+        if tier == "quick" and n == 3 and (op > 0 or wiring == "run"):
+            continue
+        cfgs.append(dict(move="pg", n=n, D=1, G=4, proposal=prop, wiring=wiring, outlier_prior=op, threshold=0.5, N=1,
+                         alpha=alphas[k % 3], data_seed=seed * 1000 + 33))
+        k += 1
     # call histories: warm caches under another concentration value, change it in place, then the update under test
     for prop, wiring, op in itertools.product(["semi-adapted", "fully-adapted"], ["library", "run"], [0.0, 0.2]):
         cfgs.append(dict(move="pg", n=2, D=1, G=5, proposal=prop, wiring=wiring, outlier_prior=op, threshold=0.5, N=2,
